@@ -135,3 +135,7 @@ mod tests {
         assert_eq!(delta.priors, delta2.priors);
     }
 }
+
+#[cfg(kani)]
+#[path = "/verif/units/kani/rollback_delta.rs"]
+mod verif_kani;
